@@ -1120,7 +1120,12 @@ func Retract(vm *VM, t Term, k Cont, env *Env) *Promise {
 	ks := make([]func(context.Context) *Promise, len(u.clauses))
 	for i, c := range u.clauses {
 		i := i
-		raw := rulify(c.raw, env)
+		// The variables of a stored clause are its own (see Clause).
+		cp, err := renamedCopy(c.raw, nil, nil)
+		if err != nil {
+			return Error(err)
+		}
+		raw := rulify(cp, nil)
 		ks[i] = func(_ context.Context) *Promise {
 			return Unify(vm, t, raw, func(env *Env) *Promise {
 				j := i - deleted
@@ -2009,11 +2014,13 @@ func Clause(vm *VM, head, body Term, k Cont, env *Env) *Promise {
 
 	ks := make([]func(context.Context) *Promise, len(u.clauses))
 	for i, c := range u.clauses {
-		cp, err := renamedCopy(c.raw, nil, env)
+		// The variables of a stored clause are its own: they are renamed apart from,
+		// and not resolved in, the environment of the caller.
+		cp, err := renamedCopy(c.raw, nil, nil)
 		if err != nil {
 			return Error(err)
 		}
-		r := rulify(cp, env)
+		r := rulify(cp, nil)
 		ks[i] = func(context.Context) *Promise {
 			return Unify(vm, atomIf.Apply(head, body), r, k, env)
 		}
